@@ -95,6 +95,14 @@ claim(
 )
 
 claim(
+    "C16",
+    "Static: decides, for every option valuation, that the load vector handed to the beam solve is the aerodynamic load plus each enabled inertial/thrust source exactly once; that distributed structural and fuel weight are lumped half/half on the end nodes of each element with total -(mass) g n in z only (fuel total halved for a half model) and equal and opposite end moments; that point-mass and thrust loads use weightings that sum to one, act along (0,0,-1) with magnitude m g n and (-1,0,0) with magnitude T, and carry moments (load point - node) x force; that structural mass is k times the sum of element masses (k = 2 only under symmetry) and the cg is modified only under symmetry; and that load_factor is promoted wherever a subsystem has it. Does not decide the numerical agreement with a closed-form beam solution.",
+    TB,
+    "source-level expression extraction (sympy, uninterpreted axis-sum and cross), store-event algebra on the load array, group promotion model, extensivity typing",
+    "DESIGN.md section 2 C16",
+)
+
+claim(
     "C15",
     "Static: decides, as identities of the per-element expressions extracted from the source, that the KS aggregate is the max-shifted log-sum-exp of stress/yield - 1 on every path (which implies max <= KS <= max + ln N / rho and overflow safety), that the exact failure is stress/yield - 1, that every stored von Mises stress is positively homogeneous of degree one in the element's local displacements with strength factors dividing the whole combined stress, and that rigid translations and small rigid rotations of an element give zero stress. Does not decide agreement with closed-form section stresses (the local-axis construction is opaque).",
     TB,
